@@ -772,6 +772,13 @@ def jsRead : Str → Option (Str × Str)
         | some x => (jsRead r').map (fun (v, rest) => (x :: v, rest))
     else (jsRead r).map (fun (v, rest) => (c :: v, rest))
 
+/-- The text the update scripts put between the quotes of `elem.<prop> = "…";` /
+`insertAdjacentHTML("pos", "…")`: escaped or not, per site (T-ESC `jsSiteTable`). -/
+def jsEmit (escaped : Bool) (text : Str) : Str := if escaped then jsEscape text else text
+
+/-- `elem.<prop> = "<text>";` from just after the opening quote. -/
+def jsAssignTail (escaped : Bool) (text : Str) : Str := jsEmit escaped text ++ c!"\";"
+
 /-- A table-driven escape (what T-ESC extracts from the source): first matching entry wins. -/
 def jsLookup : List (Char × Str) → Char → Str
   | [], c => [c]
